@@ -13,7 +13,7 @@ pub use constants::{LAST_COLUMN, LAST_ROW};
 #[verifier::external_body] pub struct Worksheet { _o: u8 }
 #[verifier::external_body] pub struct WorkbookRest { _o: u8 }
 #[verifier::external_body] pub struct ModelRest { _o: u8 }
-pub struct Workbook { pub rest: WorkbookRest }
+pub struct Workbook { pub worksheets: Vec<Worksheet>, pub rest: WorkbookRest }
 pub struct Model { pub workbook: Workbook, pub rest: ModelRest }
 //@type base/src/worksheet.rs WorksheetDimension
 pub open spec fn small(x: int) -> bool { -4194304 <= x <= 4194304 }
@@ -171,6 +171,28 @@ pub fn delete_columns_validated_prefix(&mut self, sheet: u32, column: i32, colum
 //@loop 2 it
                 invariant self.moves() =~= old(self).moves() + block_moves(row as int, row_count as int, delta as int, it.index@)
 //@rewrite `) -> Result<(), String> {` => `) -> (r: Result<(), String>) {`
+//@end
+    #[verifier::external_body]
+    pub fn reset_parsed_structures(&mut self) ensures final(self).workbook == old(self).workbook { unimplemented!() }
+
+// sheet deletion / move in the engine: validation first, then exactly one sheet is removed / re-positioned (every other sheet, hence
+// every sheet id, is kept: C27), and an Err leaves the sheet list alone (C04)
+//@fn base/src/new_empty.rs Model::delete_sheet
+//@spec
+    ensures
+        r.is_err() ==> final(self).workbook == old(self).workbook,
+        r.is_ok() ==> old(self).workbook.worksheets@.len() > 1 && sheet_index < old(self).workbook.worksheets@.len()
+            && final(self).workbook.worksheets@ =~= old(self).workbook.worksheets@.remove(sheet_index as int),
+//@rewrite `-> Result<(), String> {` => `-> (r: Result<(), String>) {`
+//@end
+//@fn base/src/new_empty.rs Model::move_sheet
+//@spec
+    ensures
+        r.is_err() ==> final(self).workbook == old(self).workbook,
+        r.is_ok() ==> sheet_index < old(self).workbook.worksheets@.len() && new_index < old(self).workbook.worksheets@.len()
+            && (sheet_index == new_index ==> final(self).workbook.worksheets@ =~= old(self).workbook.worksheets@)
+            && (sheet_index != new_index ==> final(self).workbook.worksheets@ =~= old(self).workbook.worksheets@.remove(sheet_index as int).insert(new_index as int, old(self).workbook.worksheets@[sheet_index as int])),
+//@rewrite `-> Result<(), String> {` => `-> (r: Result<(), String>) {`
 //@end
 }
 
